@@ -60,6 +60,12 @@ func (l Logged) String() string {
 	return fmt.Sprintf("c%d db%d %s", l.Conn, l.DB, s)
 }
 
+type dropConn struct{}
+
+// DropConn as a Fault's Reply: the command is not applied and the server closes the client's connection without
+// answering (an idle timeout, a fail-over, a kill).
+var DropConn = dropConn{}
+
 type Fault struct {
 	Cmd   string // lower-case command name
 	Key   string // first argument must equal this ("" = any)
@@ -198,6 +204,8 @@ func replyClass(r interface{}) string {
 		return "bulk"
 	case nil:
 		return "nil"
+	case dropConn:
+		return "drop"
 	}
 	return "array"
 }
